@@ -267,7 +267,7 @@ fn uint_hex_hostile<const L: usize>(c: &Case, rep: &mut Rep) {
     match catch(|| Uint::<L>::from_be_hex(s)) {
         Ok(v) => match &want {
             Some(bytes) => ex(rep, "hostile.from_be_hex", &ul(&v), &ul(&Uint::<L>::from_be_slice(bytes))),
-            None => rep.fail("hostile.from_be_hex.rejects_malformed", format!("accepted {:?} as {}", s, hex(&ul(&v)))),
+            None => rep.fail("hostile.from_be_hex.rejects_malformed.missing_panic", format!("accepted {:?} as {}", s, hex(&ul(&v)))),
         },
         Err(m) => {
             if want.is_some() {
@@ -278,7 +278,7 @@ fn uint_hex_hostile<const L: usize>(c: &Case, rep: &mut Rep) {
     match catch(|| Uint::<L>::from_le_hex(s)) {
         Ok(v) => match &want {
             Some(bytes) => ex(rep, "hostile.from_le_hex", &ul(&v), &ul(&Uint::<L>::from_le_slice(bytes))),
-            None => rep.fail("hostile.from_le_hex.rejects_malformed", format!("accepted {:?} as {}", s, hex(&ul(&v)))),
+            None => rep.fail("hostile.from_le_hex.rejects_malformed.missing_panic", format!("accepted {:?} as {}", s, hex(&ul(&v)))),
         },
         Err(m) => {
             if want.is_some() {
@@ -289,7 +289,7 @@ fn uint_hex_hostile<const L: usize>(c: &Case, rep: &mut Rep) {
     match catch(|| Int::<L>::from_be_hex(s)) {
         Ok(v) => match &want {
             Some(bytes) => ex(rep, "hostile.Int::from_be_hex", &il(&v), &ul(&Uint::<L>::from_be_slice(bytes))),
-            None => rep.fail("hostile.Int::from_be_hex.rejects_malformed", format!("accepted {:?}", s)),
+            None => rep.fail("hostile.Int::from_be_hex.rejects_malformed.missing_panic", format!("accepted {:?}", s)),
         },
         Err(m) => {
             if want.is_some() {
